@@ -1,5 +1,6 @@
 """C17 - reported capacity is the log2 spectral radius of the graph."""
 import math
+import itertools
 import numpy as np
 from .. import core, oracle as O, util as U
 from ..observe import run as brun
@@ -50,10 +51,12 @@ def cap_call(acc, repeats, seed):
     return brun(dsw.approximate_capacity, acc, repeats=repeats, lim=20000000)
 
 
-def check_graph(r, k, G, seeds, reps, info=None, single=True):
+def check_graph(r, k, G, seeds, reps, info=None, single=True, extra=None):
     info = classify(G) if info is None else info
     acc = U.A_reuse(G)
     case0 = {'k': k, 'arcs': [(u, j) for u in range(len(G)) for j in range(4) if G[u][j] >= 0]}
+    if extra:
+        case0.update(extra)
     r.states += 1
     pre = 'C17|'
     calls = [(1, None)] if single else []
@@ -101,7 +104,28 @@ def graph_from_case(case):
     return G
 
 
+def alphabet_graph(k, alph):
+    """The de Bruijn graph of order k over a sub-alphabet: regular, capacity exactly log2 |alphabet|."""
+    return O.from_mask({O.idx(''.join(p)) for p in itertools.product(alph, repeat=k)}, k)
+
+
+_INFO = {}
+
+
+def check_history(r, k, alphs):
+    """Single-start calls on a sequence of equal-sized graphs in one process: every result must be the
+    one the graph alone gives (regular graphs: exactly log2 d), whatever was evaluated before."""
+    for i, a in enumerate(alphs):
+        G = alphabet_graph(k, a)
+        if (k, a) not in _INFO:
+            _INFO[(k, a)] = classify(G)
+        check_graph(r, k, G, [], [], info=_INFO[(k, a)], single=True, extra={'history': list(alphs[:i])} if i else None)
+    r.ctr['call_histories'] += 1
+
+
 def check_case(r, kind, case):
+    for a in case.get('history') or []:          # replay the calls that came before
+        cap_call(U.A_reuse(alphabet_graph(case['k'], a)), 1, None)
     G = graph_from_case(case)
     check_graph(r, case['k'], G, [case['seed']] if case['seed'] is not None else [], [case['repeats']] if case['repeats'] != 1 else [],
                 single=(case['repeats'] == 1))
@@ -153,6 +177,13 @@ def _w_list(chunk):
     return r
 
 
+def _w_hist(chunk):
+    r = core.Res()
+    for k, alphs in chunk:
+        check_history(r, k, alphs)
+    return r
+
+
 def higher_order(quick):
     """Orders 3-5: complete graphs minus at most one arc (order 3), filter-generated graphs (reference gfp)."""
     from .C03 import filter_masks
@@ -185,8 +216,13 @@ def run(ctx):
     ctx.pmap(_w_g2, [(lo, hi, seeds[:1] if ctx.quick else seeds[:3], reps[:1] if ctx.quick else reps) for lo, hi in core.ranges(1 << 16, 256)])
     ho = higher_order(ctx.quick)
     ctx.pmap(_w_list, [(seeds[:1], reps[:1], c) for c in core.chunks_of(ho, 3)])
+    # call histories at orders 3-4 (5): all sequences of 2 and 3 single-start calls over the sub-alphabet graphs
+    alphs = [''.join(c) for n_ in (2, 3) for c in itertools.combinations('ACGT', n_)] + ['ACGT']
+    hist = [(k_, list(h)) for k_ in ((3, 4) if ctx.quick else (3, 4, 5)) for n_ in (2, 3) for h in itertools.product(alphs if k_ <= 4 else alphs[:6], repeat=n_)]
+    ctx.pmap(_w_hist, core.chunks_of(hist, 40))
+    ctx.guard('call histories', ctx.res.ctr['call_histories'] == len(hist))
     ctx.exhaustive = False
-    ctx.bounds = {'higher_orders': '%d graphs of order 3-5 (complete minus one arc, filter coding graphs and valid graphs)' % len(ho),
+    ctx.bounds = {'call_histories': '%d sequences of 2-3 single-start calls over the %d sub-alphabet de Bruijn graphs at orders 3-%d' % (len(hist), len(alphs), 4 if ctx.quick else 5), 'higher_orders': '%d graphs of order 3-5 (complete minus one arc, filter coding graphs and valid graphs)' % len(ho),
                   'graphs': 'all 65536 order-1 arc subsets; all 65536 order-2 vertex-induced graphs', 'repeats': [1] + reps,
                   'seeds': seeds, 'spectral_gap_accepted_at': GAP}
     ctx.rule = ('one case = (graph, repeats, RNG seed): result <= 2, 0 for arc-less graphs, log2 d for regular graphs in single-start '
